@@ -609,7 +609,7 @@ pub fn real_read_installed_xml(xml: String) -> String {
     }
 }
 
-fn parses(expr: &str) -> Option<String> {
+pub fn parses(expr: &str) -> Option<String> {
     rpsl::expr::MpFilterExpr::from_str(expr)
         .ok()
         .map(|e| e.to_string())
